@@ -14,10 +14,10 @@ for d in seeded/*/; do
   extra=$(python3 -c "import json;print(' '.join(json.load(open('$d/meta.json')).get('also_run',[])))" 2>/dev/null)
   out=$(tools/try_patch.sh "$PWD/$d/patch.diff" "$TIER" "$prop" $extra 2>&1)
   echo "== $id"; echo "$out" | cut -c1-200
-  python3 - "$d" "$prop" "$TIER" <<PY
-import json, re, sys
+  OUT_TEXT="$out" python3 - "$d" "$prop" "$TIER" <<'PY'
+import json, os, re, sys
 d, prop, tier = sys.argv[1:4]
-out = """$out"""
+out = os.environ["OUT_TEXT"]
 m = json.load(open(d + '/meta.json'))
 det = m.get('detection', {})
 for l in out.splitlines():
